@@ -1,11 +1,16 @@
 package str
 
 import (
+	"errors"
+	"math"
 	"strconv"
 	"unsafe"
 
 	"github.com/diiyw/nodis/ds"
 )
+
+// ErrOverflow is returned when an increment or decrement would leave the int64 range
+var ErrOverflow = errors.New("increment or decrement would overflow")
 
 type String struct {
 	V []byte
@@ -49,6 +54,9 @@ func (s *String) Incr(step int64) (int64, error) {
 	if err != nil {
 		return 0, err
 	}
+	if (step > 0 && n > math.MaxInt64-step) || (step < 0 && n < math.MinInt64-step) {
+		return 0, ErrOverflow
+	}
 	n += step
 	nn := strconv.FormatInt(n, 10)
 	s.V = []byte(nn)
@@ -66,6 +74,9 @@ func (s *String) Decr(step int64) (int64, error) {
 	n, err := strconv.ParseInt(v, 10, 64)
 	if err != nil {
 		return 0, err
+	}
+	if (step < 0 && n > math.MaxInt64+step) || (step > 0 && n < math.MinInt64+step) {
+		return 0, ErrOverflow
 	}
 	n -= step
 	nn := strconv.FormatInt(n, 10)
